@@ -22,11 +22,13 @@ theorem optimize_some (O : Oracle) (hO : O.PresolveAmbiguous) (l : TL) (obj : Li
     ∀ z, TL.holds l z → (if mx then evalL obj z ≤ m else m ≤ evalL obj z) :=
   Poly.optimize_some O hO l obj mx m h
 
-/-- `None` only if some behaviour satisfies the contract and the objective is unbounded in the requested direction -/
-theorem optimize_none (O : Oracle) (hO : O.PresolveAmbiguous) (l : TL) (hp : l.Proper) (obj : Lin) (mx : Bool)
+/-- `None` only if some behaviour satisfies the contract and the objective is unbounded in the requested direction.
+    (Earlier versions needed `l.Proper`; the excluded point `[0 ≤ -1]` was a genuine defect of the code, repaired in
+    `is_polytope_empty`, and the hypothesis is gone.) -/
+theorem optimize_none (O : Oracle) (hO : O.PresolveAmbiguous) (l : TL) (obj : Lin) (mx : Bool)
     (h : optimize O l obj mx = .ok none) :
     (∃ z, TL.holds l z) ∧ ∀ M, ∃ z, TL.holds l z ∧ (if mx then M < evalL obj z else evalL obj z < -M) :=
-  Poly.optimize_none O hO l hp obj mx h
+  Poly.optimize_none O hO l obj mx h
 
 /-- `ValueError` only if no behaviour satisfies the contract -/
 theorem optimize_err (O : Oracle) (hO : O.PresolveAmbiguous) (l : TL) (obj : Lin) (mx : Bool)
@@ -60,11 +62,11 @@ theorem contract_optimize_some (O : Oracle) (hO : O.PresolveAmbiguous) (c : Cont
     fun z ha hg => hall z ((holds_union _ _ z).mpr ⟨ha, hg⟩)⟩
 
 /-- `None` only if the contract has a behaviour and the objective is unbounded over its behaviours -/
-theorem contract_optimize_none (O : Oracle) (hO : O.PresolveAmbiguous) (c : Contract PTerm) (hp : TL.Proper (Gen.list_union c.a c.g))
+theorem contract_optimize_none (O : Oracle) (hO : O.PresolveAmbiguous) (c : Contract PTerm)
     (obj : Lin) (mx : Bool) (h : PolyAlg.optimizeC O c obj mx = .ok none) :
     (∃ z, TL.holds c.a z ∧ TL.holds c.g z) ∧
     ∀ M, ∃ z, TL.holds c.a z ∧ TL.holds c.g z ∧ (if mx then M < evalL obj z else evalL obj z < -M) := by
-  obtain ⟨⟨z, hz⟩, hall⟩ := Poly.optimize_none O hO _ hp obj mx h
+  obtain ⟨⟨z, hz⟩, hall⟩ := Poly.optimize_none O hO _ obj mx h
   refine ⟨⟨z, (holds_union _ _ z).mp hz⟩, fun M => ?_⟩
   obtain ⟨z', hz', hM⟩ := hall M
   exact ⟨z', ((holds_union _ _ z').mp hz').1, ((holds_union _ _ z').mp hz').2, hM⟩
